@@ -329,9 +329,54 @@ def eval_flat(case):
             v.append((f'{path}/raises/{kind}/{type(e).__name__}', f'{type(e).__name__}: {e} {ctx} {traceback.format_exc(limit=2)}'))
             continue
         compare(v, kind, path, s, back, with_id, ctx)
+        # the type is a member of THIS class's vocabulary (members of two vocabularies may share a name and a printout)
+        if back.get_type() is not TYPES[kind][typ_i]:
+            v.append((f'{path}/type-member/{kind}', f'type {TYPES[kind][typ_i]!r} came back as {back.get_type()!r} {ctx}'))
+    if s.get_type() is not TYPES[kind][typ_i]:
+        v.append((f'setter/type-member/{kind}', f'type {TYPES[kind][typ_i]!r} reads {s.get_type()!r} after set_type {ctx}'))
     if deep_fields(s, kind) != before:
         v.append((f'conversion-mutates-input/{kind}', ctx))
     return {'v': v, 'nt': (kind, props, typ_i), 'out': f'{kind}:{len(props)}'}
+
+
+def _in_child(fn):
+    """fn() in a forked child: class-level state of the library starts as in this process and dies with the child"""
+    import os
+    import pickle
+    r, w = os.pipe()
+    pid = os.fork()
+    if pid == 0:
+        try:
+            os.close(r)
+            try:
+                out = fn()
+            except BaseException as e:      # noqa
+                out = {'v': [('harness/child-raised', f'{type(e).__name__}: {e}')], 'nt': None, 'out': 'raise'}
+            with os.fdopen(w, 'wb') as f:
+                pickle.dump(out, f)
+        finally:
+            os._exit(0)
+    os.close(w)
+    with os.fdopen(r, 'rb') as f:
+        data = f.read()
+    os.waitpid(pid, 0)
+    return pickle.loads(data) if data else {'v': [('harness/child-died', '')], 'nt': None, 'out': 'raise'}
+
+
+def eval_after_other(case):
+    """history: another sliver class went through the same conversions before, in this process, with the type of the same name
+    if its vocabulary has one (else its first type); then the class under test. In a forked child, so that every case starts
+    from the same class-level state."""
+    k1, k2, ti2 = case
+    want = TYPES[k2][ti2]
+    ti1 = next((i for i, t in enumerate(TYPES[k1]) if t.name == want.name), 0)
+
+    def body():
+        eval_flat((k1, (), ti1))
+        r = eval_flat((k2, (), ti2))
+        return {'v': [(f'after-{k1}/' + fp, msg + f' [after the same for a {k1} of type {TYPES[k1][ti1]!r}]') for fp, msg in r['v']],
+                'nt': tuple(case), 'out': f'{k1}>{k2}:{"same-name" if TYPES[k1][ti1].name == want.name else "other"}'}
+    return _in_child(body)
 
 
 # ------------------------------------------------------------------------------------------ containment shapes
@@ -610,7 +655,7 @@ def eval_identity(case):
     return {'v': v, 'nt': tuple(case), 'out': 'identity'}
 
 
-REPLAY = {'flat': eval_flat, 'shapes': eval_shape, 'elements': eval_element, 'element-pairs': eval_element_pair, 'identity': eval_identity}
+REPLAY = {'after-another-class': eval_after_other, 'flat': eval_flat, 'shapes': eval_shape, 'elements': eval_element, 'element-pairs': eval_element_pair, 'identity': eval_identity}
 
 
 def run(report):
@@ -677,6 +722,11 @@ def run(report):
                   rule='every element kind x every ORDERED pair of distinct settable properties (quick: one value each, thorough: all '
                        'value combinations): set p, set q, read both back from fresh handles; unset p: p reads absent and q still reads '
                        'what was set')
+    explore_cases(report, 'after-another-class', eval_after_other,
+                  [(k1, k2, ti2) for k1 in KINDS for k2 in KINDS if k1 != k2 for ti2 in range(len(TYPES[k2]))], chunk=8,
+                  rule='every ordered pair of sliver classes x every type member of the second: the first class goes through all '
+                       'conversion paths (with the type of the same NAME where its vocabulary has one), then the second; each case in '
+                       'a forked process; the type must come back as the member of the second class\'s own vocabulary')
     explore_cases(report, 'identity', eval_identity, [(k, p) for k in ELEMENTS for p in ('name', 'type')], chunk=2,
                   rule='identity properties cannot be unset (must raise, value unchanged)')
     report.notes.append(f'setters without a vocabulary entry (coverage gap, not a violation): {gaps}')
